@@ -290,7 +290,7 @@ static void to_leaf(node *n) {   /* a container becomes a raw payload so that on
 }
 
 /* operators applicable to node n. `reduced` selects the subset used for operator pairs */
-#define MAXOPS 96
+#define MAXOPS 192
 static int ops_for(const node *n, int root, opdesc *o, int reduced) {
 	int k = 0, i;
 	unsigned tags[20];
@@ -343,7 +343,7 @@ static int ops_for(const node *n, int root, opdesc *o, int reduced) {
 			for (t = 0x01; t <= 0x1f; t++) {
 				int known = 0;
 				for (i = 0; i < nt; i++) if (tags[i] == t) known = 1;
-				if (!known && t != UNK_TAG) ADD(OP_INS_FOREIGN, t, 0, "insX%x", t);
+				if (!known && t != UNK_TAG) { ADD(OP_INS_FOREIGN, t, 0, "insX%x", t); ADD(OP_INS_FOREIGN, t, 1, "insXe%x", t); ADD(OP_INS_FOREIGN, t, 2, "insXi%x", t); }
 			}
 		}
 		/* schema-aware construction: add a valid sample of every element of the container's alphabet after this one */
@@ -390,7 +390,14 @@ static int op_apply(node *n, const opdesc *op) {
 		}
 		case OP_INS_C: kid_insert(p, idx, mk_unknown(0, 0)); return 0;
 		case OP_INS_CF: kid_insert(p, idx, mk_unknown(0, 1)); return 0;
-		case OP_INS_FOREIGN: { node *u = mk_unknown(0, 0); u->tag = op->arg; kid_insert(p, idx, u); return 0; }
+		case OP_INS_FOREIGN: {   /* payload: two raw bytes / empty / one small integer child (what the tag may hold where it IS defined) */
+			node *u = mk_unknown(0, 0);
+			u->tag = op->arg;
+			if (op->bad == 1) set_val(u, "", 0);
+			if (op->bad == 2) set_val(u, "\x01\x01\x05", 3);
+			kid_insert(p, idx, u);
+			return 0;
+		}
 		case OP_INS_N: kid_insert(p, idx, mk_unknown(1, 0)); return 0;
 		case OP_INS_NF: kid_insert(p, idx, mk_unknown(1, 1)); return 0;
 		case OP_AFT_N: kid_insert(p, idx + 1, mk_unknown(1, 0)); return 0;
